@@ -484,7 +484,7 @@ func RouteList(link netlink.Link, family int) ([]netlink.Route, error) {
 		// as the library does it: a filter on the output interface
 		return RouteListFiltered(family, &netlink.Route{LinkIndex: link.Attrs().Index}, netlink.RT_FILTER_OIF)
 	}
-	return W.Routes, W.RouteErr
+	return RouteListFiltered(family, nil, 0)
 }
 
 // RouteListFiltered follows vishvananda/netlink: a route is listed when it agrees with the filter
@@ -506,6 +506,10 @@ func RouteListFiltered(family int, filter *netlink.Route, mask uint64) ([]netlin
 	}
 	var out []netlink.Route
 	for _, r := range W.Routes {
+		// routes of other tables than the main one are listed only when the mask asks for tables
+		if r.Table != 0 && r.Table != 254 && mask&netlink.RT_FILTER_TABLE == 0 {
+			continue
+		}
 		switch {
 		case mask&netlink.RT_FILTER_OIF != 0 && r.LinkIndex != filter.LinkIndex:
 			continue
@@ -523,7 +527,7 @@ func RouteListFiltered(family int, filter *netlink.Route, mask uint64) ([]netlin
 			continue
 		case mask&netlink.RT_FILTER_IIF != 0 && r.ILinkIndex != filter.ILinkIndex:
 			continue
-		case mask&netlink.RT_FILTER_TABLE != 0 && filter.Table != 0 && filter.Table != 254 && r.Table != filter.Table:
+		case mask&netlink.RT_FILTER_TABLE != 0 && filter.Table != 0 && r.Table != filter.Table && !(filter.Table == 254 && r.Table == 0):
 			continue
 		}
 		if mask&netlink.RT_FILTER_DST != 0 {
